@@ -31,11 +31,45 @@ mod imp {
 
     fn gen_input_full(rng: &mut Rng, i: u64) -> Vec<u8> {
         let lens = [0usize, 1, 2, 7, 8, 64, 65, 300, 4096];
-        match i % 12 {
+        match i % 13 {
+            12 => {
+                // 8-byte little-endian words holding SMALL numbers (lengths, counts) between runs of
+                // well-formed and ill-formed text: the generators read `usize` lengths from the stream
+                let n = rng.usize(1200);
+                let mut v = Vec::with_capacity(n + 16);
+                while v.len() < n {
+                    match rng.below(5) {
+                        0 | 1 => {
+                            let k = match rng.below(4) {
+                                0 => rng.below(8),
+                                1 => rng.below(70),
+                                2 => rng.below(300),
+                                _ => *rng.pick(&[0u64, 1, 31, 32, 33, 63, 64, 65, 127, 128, 129, 255, 256, 257]),
+                            };
+                            v.extend_from_slice(&k.to_le_bytes());
+                        }
+                        2 => {
+                            let l = rng.usize(80);
+                            v.extend_from_slice(rng.text_bytes(l).as_bytes());
+                        }
+                        3 => {
+                            let l = rng.usize(40);
+                            for _ in 0..l {
+                                v.push(*rng.pick(&[0x80u8, 0xbf, 0xc0, 0xc3, 0xe2, 0xf0, 0xff, 0x61, 0xed, 0xa0]));
+                            }
+                        }
+                        _ => {
+                            let l = rng.usize(24);
+                            v.extend_from_slice(&rng.bytes(l));
+                        }
+                    }
+                }
+                v
+            }
             11 => {
                 // every length 0..=300 (exact-size effects such as "one byte left for the last field")
-                let len = (i / 12 % 301) as usize;
-                match i / 12 / 301 % 5 {
+                let len = (i / 13 % 301) as usize;
+                match i / 13 / 301 % 5 {
                     0 => vec![0x00; len],
                     1 => vec![0x01; len],
                     2 => vec![0xff; len],
@@ -59,7 +93,7 @@ mod imp {
                         *b |= 1; // booleans true: optional members present
                     }
                 }
-                let homogeneous = i % 12 == 9;
+                let homogeneous = i % 13 == 9;
                 let w = 2 + rng.usize(3);
                 let mut t = String::new();
                 for _ in 0..rng.usize(4) {
@@ -92,8 +126,8 @@ mod imp {
             }
             0 => {
                 // single-byte repeats
-                let b = (i / 12 % 256) as u8;
-                vec![b; lens[(i / 12 / 256) as usize % lens.len()]]
+                let b = (i / 13 % 256) as u8;
+                vec![b; lens[(i / 13 / 256) as usize % lens.len()]]
             }
             1 => {
                 let n = rng.usize(4097);
@@ -191,7 +225,8 @@ mod imp {
             let i = case - 1;
             let mut rng = Rng::derive(seed, "c19", case);
             let bytes = gen_input(&mut rng, i, rep.light);
-            if !rep.begin(match i % 12 {
+            if !rep.begin(match i % 13 {
+                12 => "small-length-words",
                 11 => "every-length-0..=300",
                 0 => "single-byte-repeat",
                 3 | 4 => "utf8-biased",
